@@ -110,6 +110,17 @@ PROPS = {
              "segment points into the inner source",
         nontrivial=lambda p: True,
     ),
+    "C10": dict(
+        gens=[tlc("c10", "quick"), tlc("c10full", "thorough"), rand("cached_hist", 500, "quick"), rand("cached_hist", 30000, "thorough")],
+        tv_props=["C10"],
+        must_fire=["C10.source", "C10.buffer", "C10.size", "C10.hash_stable",
+                   "C10.map_cold", "C10.map_filled_by_map", "C10.map_filled_by_stream", "C10.map_through_parent",
+                   "C10.stream_cold", "C10.stream_filled_by_map", "C10.stream_filled_by_stream"],
+        rule="call histories over a CachedSource, a clone sharing its cache and a parent ConcatSource (exercises the final-source key), "
+             "compared call by call with the answers of the uncached wrapped tree; predicate names carry the cache state the object "
+             "machine was in (cold / filled by map / filled by stream); non-trivial = history of length >= 2",
+        nontrivial=lambda p: sum(1 for s in p.get("steps", []) if s["op"] in ("map", "stream", "hash", "source", "buffer", "size")) >= 12,
+    ),
     "C11": dict(
         gens=[tlc("c02"), rand("stream_ascii", 600, "quick"), rand("stream_ascii", 30000, "thorough")],
         tv_props=["C11"],
@@ -134,6 +145,24 @@ PROPS = {
         must_fire=["C13.same_text", "C13.same_attribution_columns", "C13.same_attribution_lines"],
         rule="pairs (flat tree, regrouped / wrapped tree); non-trivial = at least one mapped leaf",
         nontrivial=lambda p: bool(prog_kinds(p) & {"orig", "sms"}),
+    ),
+    "C14": dict(
+        gens=[tlc("c14"), rand("identity", 500, "quick"), rand("identity", 30000, "thorough")],
+        tv_props=["C14"],
+        must_fire=["C14.eq_symmetric", "C14.eq_stable", "C14.same_construction_equal", "C14.typed_agrees_with_dyn",
+                   "C14.equal_implies_same_hash", "C14.equal_implies_same_answers", "C14.observer_repeatable"],
+        rule="pairs built by the same constructor calls and pairs one edit apart (Gen.tla Edits), with observer calls on one operand "
+             "before and between comparisons, clones; non-trivial = an observer call separates two comparisons",
+        nontrivial=lambda p: True,
+    ),
+    "C20": dict(
+        gens=[tlc("c20"), rand("edit_pairs", 500, "quick"), rand("edit_pairs", 30000, "thorough")],
+        tv_props=["C20"],
+        must_fire=["C20.different_observables_different_hash", "C20.hash_reproducible"],
+        rule="every single edit of every listed kind at every node of the base trees, and all pairs of base trees; a pair counts only "
+             "when source/buffer/map really differ; hashes recomputed in a second thread and a second process; non-trivial = the pair "
+             "is observably different",
+        nontrivial=lambda p: True,
     ),
     "C17": dict(
         gens=[tlc("c01"), rand("stream_any", 400, "quick"), rand("wild", 600, "quick"), rand("decoder_junk", 300, "quick"),
